@@ -5,6 +5,13 @@ set -u
 ROOT="$(cd "$(dirname "$0")/.." && pwd)"; A="$(realpath "$1")"
 n="$(basename "$A")"; ID="${n%%-*}"; t="${n#*-fuzz-}"; TARGET="${t%%-crash-*}"; TARGET="${TARGET%%-timeout-*}"; TARGET="${TARGET%%-oom-*}"
 export CARGO_NET_OFFLINE=true
+case "$TARGET" in
+  strategy_bytes.*)
+    # the bytes are the entropy of the property's own strategy: replay through the harness itself (rebuilt from /repo's working tree)
+    SUB="${TARGET#strategy_bytes.}"
+    (cd "$ROOT/harness" && cargo build --release --offline >/dev/null 2>&1) || { echo "INCONCLUSIVE: harness does not build" >&2; exit 2; }
+    exec "$ROOT/harness/target/release/check" "$ID" --entropy "$A" --sub "$SUB" ;;
+esac
 (cd "$ROOT" && cargo fuzz build -s none --fuzz-dir "$ROOT/fuzz" "$TARGET" >/dev/null 2>&1) || { echo "INCONCLUSIVE: fuzz target $TARGET does not build" >&2; exit 2; }
 out=$(cd "$(mktemp -d)" && ACBVERIF_FUZZ_PROP="$ID" "$ROOT/fuzz/target/x86_64-unknown-linux-gnu/release/$TARGET" "$A" 2>&1); rc=$?
 echo "$out" | grep -E "^VIOLATION-|^PANIC" | head -20
